@@ -74,7 +74,7 @@ Overlay(b, d) ==
 
 BaseC06 == Mk2("k", S("old"), "q", I("7"))
 
-CasesC06 ==
+CasesC06(lazy) ==
   UNION {
     {Case(<<d>>, NoEnv, "plain") : d \in {x \in ShapesOf(s) : PlainStr(s)}}
     \cup {CaseX(<<Escape(d)>>, NoEnv, "escaped", d) : d \in {x \in ShapesOf(s) : ~HasNull(x)}}
@@ -107,7 +107,7 @@ Uppers07 == {
   Single("l", L(<<S("$replace")>>)), Single("l", L(<<Single("$delete", I("1"))>>)),
   Single("o", Single("x", I("2"))), Single("e", Null), L(<<I("1")>>) }
 
-CasesC07 ==
+CasesC07(lazy) ==
   UNION {{Case(<<lo, up>>, NoEnv, "chain") : lo \in {x \in Lowers07(t) : ~(IsMap(x) /\ Has(x, "$match"))}, up \in Uppers07}
          : t \in Toks07}
 
@@ -191,12 +191,12 @@ Chain10(hk, mk, bk, local, midv, basev) ==
 ChainVals == {I("5"), Null, Single("flags", L(<<S("h")>>)), L(<<S("lh")>>), Single("other", I("1"))}
 ChainConts == {Single("flags", L(<<S("m")>>)), L(<<S("lm")>>), Mk2("flags", L(<<S("m")>>), "deep", Single("k", I("1")))}
 ChainNames == { <<"host", "mid", "base">>, <<"zhost", "mid", "base">>, <<"host", "mid", "zbase">>, <<"b", "c", "a">> }
-CasesChain10 ==
+CasesChain10(lazy) ==
   {CaseX(<<Chain10(n[1], n[2], n[3], lv, mv, bv)>>, NoEnv, "mergechain", n)
      : n \in ChainNames, lv \in ChainVals, mv \in ChainConts, bv \in ChainConts}
 
-CasesC10 ==
-  CasesChain10 \cup
+CasesC10(lazy) ==
+  CasesChain10(0) \cup
   {Case(<<DocC10(p[1])>>, NoEnv, "ref") : p \in Pairs10}
   \cup {Case(<<DocC10(p[2])>>, NoEnv, "inline") : p \in Pairs10}
   \cup {Case(<<DocC10(Mk2("a", p[1], "b", S("$replace:h.a")))>>, NoEnv, "chain") : p \in ChainPairs10}
@@ -250,7 +250,7 @@ Shape11(r, a, b, cl) ==
   WithMark(Mk3("v", I("1"),
                "A", WithMark(Mk2("w", I("2"), "B", WithMark(Single("x", I("3")), b)), a),
                "C", ListMark(<<I("4"), Single("y", I("5"))>>, cl)), r)
-CasesC11 ==
+CasesC11(lazy) ==
   {Case(<<Shape11(r, a, b, cl)>>, NoEnv, "marks") : r \in MarkSet, a \in MarkSet, b \in MarkSet, cl \in MarkSet}
   \cup {Case(<<Shape11(r, a, "n", "n"), Shape11("n", "n", b, cl)>>, NoEnv, "stream") : r \in MarkSet, a \in MarkSet, b \in MarkSet, cl \in MarkSet}
   \cup {Case(<<L(<<Single("$output", True), Single("w", Mk2("$output", True, "p", I("1"))), L(<<Single("$output", mk), I("2")>>)>>)>>, NoEnv, "lists") : mk \in {True, False}}
@@ -279,7 +279,7 @@ Nest12(n, m) == Mk4("$repeat", I(NatStr(n)), "before", S("$repeat"),
                     "zafter", S("$\"d{$repeat}\""))
 NestWant(i, m) == Mk3("before", I(NatStr(i)), "items", L([j \in 1..m |-> Single("j", I(NatStr(j - 1)))]),
                       "zafter", S("d" \o NatStr(i)))
-CasesC12 ==
+CasesC12(lazy) ==
   {Case(<<Body12 %% Single("$repeat", I(NatStr(n)))>>, NoEnv, "doc") : n \in Counts}
   \cup {Case(<<BodyXY %% Single("$repeat", Mk2("x", I(NatStr(n)), "y", I(NatStr(m))))>>, NoEnv, "named") : n \in Counts, m \in 0..2}
   \cup {Case(<<Single("l", L(<<S("a"), Body12 %% Single("$repeat", I(NatStr(n))), S("z")>>))>>, NoEnv, "list") : n \in Counts}
@@ -336,7 +336,7 @@ Value13(r) == CASE r = "n" -> "42" [] r = "s" -> "str" [] r = "m.f" -> "1.5"
 Known13(r) == r \in {"n", "s", "m.f", "$env:V", "$env:E"}
 Tmpl1(l1, r, l2) == "$\"" \o l1 \o "{" \o r \o "}" \o l2 \o "\""
 Tmpl2(l1, r1, l2, r2, l3) == "$\"" \o l1 \o "{" \o r1 \o "}" \o l2 \o "{" \o r2 \o "}" \o l3 \o "\""
-CasesC13 ==
+CasesC13(lazy) ==
   {CaseX(<<Doc13("$\"" \o l1 \o "\"")>>, Env13, "lit", l1) : l1 \in Lits}
   \cup {CaseX(<<Doc13(Tmpl1(l1, r, l2))>>, Env13, "one", <<l1, r, l2>>) : l1 \in Lits, r \in Refs13, l2 \in Lits}
   \cup {CaseX(<<Doc13(Tmpl2(l1, r1, ":", r2, l1))>>, Env13, "two", <<l1, r1, r2>>) : l1 \in {"", "a}"}, r1 \in Refs13, r2 \in Refs13}
@@ -378,7 +378,7 @@ Trans14 == Structural \cup Malformed \cup Codecs14
 Stacks14 == {<<t>> : t \in Trans14} \cup {<<a, b>> : a \in Structural \cup {"base64"}, b \in Structural \cup {"bogus", "sha256"}}
             \cup (IF Bound >= 3 THEN {<<a, b, cc>> : a \in Structural, b \in Structural, cc \in Structural \cup {"json"}} ELSE {})
 EncArg(st) == IF Len(st) = 1 THEN S(st[1]) ELSE L([i \in DOMAIN st |-> S(st[i])])
-CasesC14 ==
+CasesC14(lazy) ==
   {CaseX(<<Single("out", Mk2("$encode", EncArg(st), "$value", v))>>, NoEnv, "value", <<v, st>>) : v \in Vals14, st \in Stacks14}
   \cup {CaseX(<<Single("out", v %% Single("$encode", EncArg(st)))>>, NoEnv, "maphost", <<v, st>>) : v \in {x \in Vals14 : IsMap(x)}, st \in Stacks14}
   \cup {CaseX(<<Single("out", L(<<Single("$encode", EncArg(st))>> \o Elems(v)))>>, NoEnv, "listhost", <<v, st>>) : v \in {x \in Vals14 : IsList(x)}, st \in Stacks14}
@@ -427,7 +427,7 @@ MyForms08 == {Forms08Seq[i] : i \in {j \in DOMAIN Forms08Seq : j % NShards = Sha
 (* two whole-document self-merges feed each other: a cycle with fan-out, the   *)
 (* known finding c08-branching-cycle, probed separately by the harness         *)
 IsSelf(f) == IF f[1] = "selfwhole" THEN 1 ELSE 0
-CasesC08 ==
+CasesC08(lazy) ==
   UNION {{CaseX(<<Mk4("x", Node08(fx), "y", Node08(fy), "z", Node08(fz), "k", I("7"))>>, NoEnv, "refgraph", <<fx, fy, fz>>)
             : fz \in {f \in Forms08 : IsSelf(fx) + IsSelf(fy) + IsSelf(f) < 2}}
          : fx \in MyForms08, fy \in Forms08}
@@ -446,8 +446,8 @@ LawC08(cs) ==
   /\ StrictCycle(cs.aux) => ~r.ok
   /\ (Acyclic(cs.aux) /\ \A i \in 1..3 : cs.aux[i][1] # "selfwhole") => (r.ok \/ r.err # "circular")
 
-Cases == CASE Family = "C14" -> CasesC14 [] Family = "C08" -> CasesC08 [] Family = "C06" -> CasesC06 [] Family = "C07" -> CasesC07 [] Family = "C10" -> CasesC10
-           [] Family = "C11" -> CasesC11 [] Family = "C12" -> CasesC12 [] Family = "C13" -> CasesC13
+Cases == CASE Family = "C14" -> CasesC14(0) [] Family = "C08" -> CasesC08(0) [] Family = "C06" -> CasesC06(0) [] Family = "C07" -> CasesC07(0) [] Family = "C10" -> CasesC10(0)
+           [] Family = "C11" -> CasesC11(0) [] Family = "C12" -> CasesC12(0) [] Family = "C13" -> CasesC13(0)
 Law(cs) == CASE Family = "C14" -> LawC14(cs) [] Family = "C08" -> LawC08(cs) [] Family = "C06" -> LawC06(cs) [] Family = "C07" -> LawC07(cs) [] Family = "C10" -> LawC10(cs)
              [] Family = "C11" -> LawC11(cs) [] Family = "C12" -> LawC12(cs) [] Family = "C13" -> LawC13(cs)
 
